@@ -445,6 +445,15 @@ CORPUS = [
     [[("INT", asm.RawArg(b"01\n")), "STOP"], [("BININT1", 1), "STOP"], [("INT", asm.RawArg(b"00\n")), "STOP"]],
     [[("LONG", asm.RawArg(b"1180591620717411303424L\n")), "STOP"], ["EMPTY_LIST", ("BININT1", 2), "APPEND", "STOP"]],
     [[("STRING", asm.RawArg(b"'abc'\n")), "STOP"], [("INT", asm.RawArg(b"01\n")), "STOP"]],
+    # the same attribute name imported from two modules by different members, A B A (B A B): every member's
+    # own import must be in force when its result is bound (seeded change C18 r4a: an import already printed
+    # for an earlier member is not printed again)
+    [[("GLOBAL", ("collections", "OrderedDict")), "STOP"], [("GLOBAL", ("verif_sink", "OrderedDict")), "STOP"],
+     [("GLOBAL", ("collections", "OrderedDict")), "STOP"]],
+    [[("GLOBAL", ("verif_sink", "getcwd")), "EMPTY_TUPLE", "REDUCE", "STOP"],
+     [("GLOBAL", ("os", "getcwd")), "EMPTY_TUPLE", "REDUCE", "STOP"],
+     [("PROTO", 2), ("GLOBAL", ("verif_sink", "getcwd")), ("BININT1", 3), "TUPLE1", "REDUCE", "STOP"],
+     [("GLOBAL", ("os", "getcwd")), "EMPTY_TUPLE", "REDUCE", "STOP"]],
 ]
 
 
